@@ -77,8 +77,40 @@ def confirm(pdir, slot):
     sh(f"git -C {wt} checkout -- . ; git -C {wt} clean -fdq -e target")
     return 0
 
+def retest(pdir, slot, names, attempts=4):
+    """Re-run the named tests alone with the patch applied (up to `attempts` times each); for those that never
+    pass, the same on the unpatched tree, so that load-dependent tests can be told apart."""
+    wt = f"/tmp/sv-confirm-{slot}"
+    head = sh("git -C /repo rev-parse HEAD")[1].strip()
+    if not os.path.isdir(wt):
+        rc, out, _ = sh(f"git -C /repo worktree add -q --detach {wt} HEAD")
+        assert rc == 0, out
+    sh(f"git -C {wt} checkout -q --detach {head}; git -C {wt} checkout -- . ; git -C {wt} clean -fdq -e target")
+    rc, out, _ = sh(f"git -C {wt} apply {pdir}/patch.diff")
+    assert rc == 0, out
+    res = {}
+    def run(name):
+        rc, out, dt = sh(f"cargo nextest run --workspace --offline --tool-config-file pb:/w/lib/nextest.toml --profile pb -E 'test(={name})'", cwd=wt)
+        return rc == 0 and re.search(r"1 passed", out) is not None
+    for n in names:
+        res[n] = {"with_patch": [run(n) for _ in range(1)]}
+        k = 1
+        while not any(res[n]["with_patch"]) and k < attempts:
+            res[n]["with_patch"].append(run(n)); k += 1
+    never = [n for n in names if not any(res[n]["with_patch"])]
+    if never:
+        sh(f"git -C {wt} apply -R {pdir}/patch.diff")
+        for n in never:
+            res[n]["without_patch"] = [run(n) for _ in range(attempts)]
+    print(json.dumps({"step": "retest", "patch": pdir, "base": head, "results": res,
+                      "all_passed_with_patch": not never}))
+    sh(f"git -C {wt} checkout -- . ; git -C {wt} clean -fdq -e target")
+    return 0
+
 def main():
     mode = sys.argv[1]
+    if mode == "retest":
+        return retest(os.path.abspath(sys.argv[2]), sys.argv[3], sys.argv[4:])
     if mode == "cleanup":
         import glob
         for wt in glob.glob("/tmp/sv-*"):
